@@ -109,6 +109,8 @@ pub fn on_block_for_gc(idx: usize) {
 // while the last worker exits (WorkerMonitor::on_all_workers_exited uses try_lock().unwrap(), and
 // the documentation asks for a single-threaded process at fork() time).  Requests that are already
 // pending (requester blocked in block_for_gc) when prepare_to_fork is called are legal and wanted.
+static STORM: std::sync::atomic::AtomicU64 = std::sync::atomic::AtomicU64::new(0);
+static STORM_ARRIVED: std::sync::atomic::AtomicUsize = std::sync::atomic::AtomicUsize::new(0);
 static FORKING: std::sync::atomic::AtomicBool = std::sync::atomic::AtomicBool::new(false);
 static REQUESTERS_IN_CALL: std::sync::atomic::AtomicUsize = std::sync::atomic::AtomicUsize::new(0);
 thread_local! {
@@ -852,6 +854,40 @@ impl Mut {
         with_report("C11", |r| r.count("user_gc_requests", 1));
     }
 
+    /// Several mutators request a collection at (nearly) the same instant: the initiator raises a
+    /// flag, every mutator that sees it at its next operation boundary joins, all spin until the
+    /// others have arrived (bounded) and then call handle_user_collection_request together.
+    fn join_gc_storm(&mut self) {
+        let w = world();
+        let n = w.cfg.mutators;
+        STORM_ARRIVED.fetch_add(1, Ordering::SeqCst);
+        let mut spins = 0u32;
+        while STORM_ARRIVED.load(Ordering::SeqCst) < n && spins < 20_000 && STORM.load(Ordering::SeqCst) != 0 {
+            std::hint::spin_loop();
+            spins += 1;
+        }
+        STORM.store(0, Ordering::SeqCst);
+        self.op_user_gc(false);
+        with_report("C14", |r| r.count("gc_storm_requests", 1));
+    }
+
+    fn maybe_gc_storm(&mut self) {
+        let w = world();
+        if !w.cfg.log_events || w.cfg.mutators < 2 || !w.cfg.collects() {
+            return;
+        }
+        let s = STORM.load(Ordering::SeqCst);
+        if s != 0 && s != self.idx as u64 + 1 {
+            self.join_gc_storm();
+        }
+    }
+
+    fn op_start_gc_storm(&mut self) {
+        STORM_ARRIVED.store(0, Ordering::SeqCst);
+        STORM.store(self.idx as u64 + 1, Ordering::SeqCst);
+        self.join_gc_storm();
+    }
+
     #[cfg(feature = "f_pin")]
     fn op_pin(&mut self, unpin: bool) {
         let w = world();
@@ -1397,6 +1433,7 @@ impl Mut {
                 self.op_fork_cycle();
                 continue;
             }
+            self.maybe_gc_storm();
             let x = self.rng.below(1000);
             match x {
                 0..=299 => self.op_alloc(),
@@ -1483,7 +1520,9 @@ impl Mut {
                     }
                 }
                 950..=954 => {
-                    if cfg.log_events && self.rng.chance(1, 2) {
+                    if cfg.log_events && cfg.mutators >= 2 && scen != "fork" && self.rng.chance(1, 4) {
+                        self.op_start_gc_storm();
+                    } else if cfg.log_events && self.rng.chance(1, 2) {
                         self.op_inject_packets();
                     } else {
                         memory_manager::gc_poll(w.mmtk, world::tls_of(self.idx));
